@@ -209,6 +209,8 @@ def explore(thunk, pre=(), prune_ms=250, max_paths=4000, history=False, label=No
     sv = z3.Solver()
     sv.set('timeout', prune_ms)
     S.ctx.active = True
+    S.ctx.budget_s = int(os.environ.get('VERIF_EXPLORE_S', '1800' if THOROUGH else '600'))
+    S.ctx.deadline = time.time() + S.ctx.budget_s        # per explore() call; the unchanged tree's slowest exploration takes well under a minute
     hist = bool(ST.STATE)
     base_fp = None
     try:
@@ -245,7 +247,11 @@ def explore(thunk, pre=(), prune_ms=250, max_paths=4000, history=False, label=No
                 except EngineError:
                     raise
                 except PROGRAM_EXC as e:
-                    r = ('raise', (type(e).__name__, str(e)[:120]))
+                    S.ctx.in_engine = True          # the message may print a symbolic key or value: that repr is ours, not the program's
+                    try:
+                        r = ('raise', (type(e).__name__, str(e)[:120]))
+                    finally:
+                        S.ctx.in_engine = False
                 pc = list(S.ctx.pc)
                 if phase == 1:
                     r = (r[0], ST.resolve_equalities(pc, r[1]))
@@ -263,10 +269,12 @@ def explore(thunk, pre=(), prune_ms=250, max_paths=4000, history=False, label=No
                     raise EngineError('path explosion')
     finally:
         S.ctx.active = False
+        S.ctx.deadline = 0
         if hist:
             ST.restore()
     if hist:
         dep, unk = [], []
+        t_sem0 = time.time()
         fps = [(p['kind'], ST.fingerprint(p['val'])) for p in out]
         for h in hout:
             verdict = 'dependent'
@@ -277,7 +285,14 @@ def explore(thunk, pre=(), prune_ms=250, max_paths=4000, history=False, label=No
                 shp = (h['kind'], ST.shape(h['val']))
                 th = ST.terms_of(h['val'])
                 good = []
-                for p_ in out:
+                verdict = 'unknown'               # history symbols remain: `dependent` needs evidence (a point), `independent` a proof
+                ev_ = _numeric_dependence(h, out, pre)
+                if ev_:
+                    verdict = 'dependent'
+                    h['evidence'] = ev_
+                elif time.time() - t_sem0 > 90:
+                    pass                          # the time budget of the semantic comparison for this contract thunk is used up: undecided
+                for p_ in (out if (not ev_ and time.time() - t_sem0 <= 90) else []):
                     if (p_['kind'], ST.shape(p_['val'])) != shp:
                         continue
                     tp = ST.terms_of(p_['val'])
@@ -291,18 +306,18 @@ def explore(thunk, pre=(), prune_ms=250, max_paths=4000, history=False, label=No
                         continue                      # the two paths exclude each other
                     eqs = [a_ == b_ for a_, b_ in zip(th, tp) if not a_.eq(b_)]
                     try:
-                        ok_ = not eqs or prove_abs(z3.And(*eqs), list(pre) + list(h['pc']) + list(p_['pc']), timeout=10000)['result'] == 'discharged'
+                        ok_ = not eqs or prove_abs(z3.And(*eqs), list(pre) + list(h['pc']) + list(p_['pc']), timeout=4000)['result'] == 'discharged'
                     except EngineError:
                         ok_ = False
                     if ok_:
                         good.append(p_)
-                if good:
+                if good and not ev_:
                     s2 = z3.Solver()
                     s2.add(*pre)
                     s2.add(*h['pc'])
                     s2.add(z3.Not(z3.Or(*[z3.And(*p_['pc']) if p_['pc'] else z3.BoolVal(True) for p_ in good])))
                     rr = zcheck(s2, 5000)
-                    verdict = 'independent' if rr == z3.unsat else ('dependent' if rr == z3.sat else 'unknown')
+                    verdict = 'independent' if rr == z3.unsat else 'unknown'
             elif True:
                 key = (h['kind'], ST.fingerprint(h['val']))
                 same = [p for p, k in zip(out, fps) if k == key]
@@ -314,6 +329,7 @@ def explore(thunk, pre=(), prune_ms=250, max_paths=4000, history=False, label=No
                     rr = zcheck(s2, 5000)
                     verdict = 'independent' if rr == z3.unsat else ('dependent' if rr == z3.sat else 'unknown')
             h['independent'] = verdict == 'independent'
+            h['verdict'] = verdict
             if verdict == 'dependent':
                 dep.append(h)
             elif verdict == 'unknown':
@@ -321,10 +337,85 @@ def explore(thunk, pre=(), prune_ms=250, max_paths=4000, history=False, label=No
         co = getattr(thunk, '__code__', None)
         ST.FINDINGS.append(dict(label=label or ('%s:%d' % (os.path.basename(co.co_filename), co.co_firstlineno) if co else '?'),
                                 plain=len(out), history=len(hout), dependent=len(dep), unknown=len(unk),
-                                example=(str([str(c)[:80] for c in dep[0]['pc']][:4]) if dep else None)))
+                                example=((str([str(c)[:80] for c in dep[0]['pc']][:4]) + (' evidence: %r' % (dep[0].get('evidence'),))[:400]) if dep else None)))
         if history:
             return out + hout
     return out
+
+
+def _numeric_dependence(h, out, pre):
+    """evidence that the result of history path h depends on the earlier call: a point (values of the current arguments and of the
+    earlier call's, renamed, arguments) where h's path condition holds and h's result differs from what the plain path taken by the
+    current arguments returns.  The point comes from a solver model of the path condition and from perturbations of one earlier
+    argument at a time; conditions and results are evaluated with the true functions.  None when no such point is found."""
+    import mpmath as mp
+    th = ST.terms_of(h['val'])
+    hs = (h['kind'], ST.shape(h['val']))
+    allt = list(pre) + list(h['pc']) + th
+    for p_ in out:
+        allt += list(p_['pc']) + ST.terms_of(p_['val'])
+    syms = free_symbols(allt)
+    names = [n for n in syms if z3.is_real(syms[n]) or z3.is_int(syms[n])]
+    his = [n for n in names if n.endswith(ST.HIST)]
+    if not his:
+        return None
+    sv = z3.Solver()
+    sv.add(*pre)
+    sv.add(*h['pc'])
+    base = None
+    if zcheck(sv, 3000, want_model=True) == z3.sat and LAST_MODEL[0]:
+        base = model_env(LAST_MODEL[0], names)
+    bases = [base] if base is not None else []
+    sv.add(*[z3.And(syms[n] >= 1.5, syms[n] <= 50) for n in names])           # a second point away from the degenerate corner values models favour
+    if zcheck(sv, 3000, want_model=True) == z3.sat and LAST_MODEL[0]:
+        b2 = model_env(LAST_MODEL[0], names)
+        if b2 is not None:
+            bases.append(b2)
+    envs = list(bases)
+    for base in bases:
+      for n in his:
+          c = n[:-len(ST.HIST)]
+          for f_ in (lambda v: v * 1.37 + 0.11, lambda v: v + 1.0):
+              e2 = dict(base)
+              e2[n] = f_(float(base.get(c, base[n])))
+              envs.append(e2)
+    if not envs:
+        return None
+    tol = mp.mpf(10) ** -18
+
+    def holds(cs, env):
+        return all(evaluate(c, env, dps=30, tol=tol) for c in cs)
+    dbg = os.environ.get('VERIF_DEBUG_DEP') == '1'
+    if dbg:
+        print('DEP probe: %d envs, %d history symbols, bases %d' % (len(envs), len(his), len(bases)), flush=True)
+    for env in envs[:60]:
+        try:
+            if not holds(list(pre) + list(h['pc']), env):
+                continue
+            hv = [evaluate(t, env, dps=30) for t in th]
+            taken = [p_ for p_ in out if holds(p_['pc'], env)]
+            if dbg:
+                print('DEP probe: pc holds, plain paths taken %d' % len(taken), flush=True)
+            if len(taken) != 1:
+                continue
+            p_ = taken[0]
+            tp = ST.terms_of(p_['val'])
+            if (p_['kind'], ST.shape(p_['val'])) != hs or len(tp) != len(th):
+                if p_['kind'] != h['kind']:
+                    return dict(point={k: v for k, v in env.items()}, history_path=h['kind'], plain_path=p_['kind'])
+                continue
+            pv = [evaluate(t, env, dps=30) for t in tp]
+            for a_, b_ in zip(hv, pv):
+                if isinstance(a_, bool) or isinstance(b_, bool):
+                    if a_ != b_:
+                        return dict(point=dict(env), after_earlier_call=str(a_), fresh=str(b_))
+                elif abs(a_ - b_) > mp.mpf(10) ** -12 * (1 + abs(a_) + abs(b_)):
+                    return dict(point=dict(env), after_earlier_call=float(a_), fresh=float(b_))
+        except (ZeroDivisionError, ValueError, KeyError, NotImplementedError, TypeError, OverflowError) as ex_:
+            if dbg:
+                print('DEP probe: evaluation failed: %r' % (ex_,), flush=True)
+            continue
+    return None
 
 
 # --------------------------------------------------------------------------------------------- AST helpers
@@ -899,7 +990,7 @@ class Abstractor:
         if z3.is_rational_value(d):
             return d.as_fraction() == 0
         den = [q != 0 for q in denominators([u, v])]
-        if s.qtime > (15.0 if TRIAGE['violations'] >= 3 and TRIAGE['spent_undischarged_s'] > 240 else s.budget):
+        if s.qtime > (15.0 if _triage() else s.budget):
             # the time budget of this abstraction for argument-equality questions is used up (only seen on code whose arguments
             # no longer match the contract's): not merging is always sound - it can only leave the final question harder
             s.skipped = getattr(s, 'skipped', 0) + 1
@@ -1114,7 +1205,14 @@ QLOG = []
 Z3V = 'z3 ' + z3.get_version_string()
 
 
-TRIAGE = dict(violations=0, spent_undischarged_s=0.0)
+TRIAGE = dict(violations=0, unproved=0, spent_undischarged_s=0.0)
+
+
+def _triage():
+    """several obligations are already reported (violated, or unproved after the full ladder) and minutes have gone into queries that did not
+    discharge: the remaining queries get short budgets.  Nothing is discharged by this; an obligation that would have needed the long budget
+    stays undischarged and goes to the numeric triage like the ones before it."""
+    return (TRIAGE['violations'] >= 3 or TRIAGE['unproved'] >= 3) and TRIAGE['spent_undischarged_s'] > 240
 ABS_MAX = [0.0]          # largest time one abstraction spent on argument-equality questions (budget: Abstractor.budget)
 THOROUGH = os.environ.get('VERIF_TIER') == 'thorough'
 RECHECK = {}
@@ -1145,7 +1243,7 @@ def _cvc5_check(solver_assertions, timeout_ms):
 def prove(goal, hyps=(), timeout=60000, rounds=2, use_axioms=True, cvc5=True, extra=()):
     """ladder: goal alone -> + hyps -> + axiom instances; first unsat discharges.  Returns a result dict."""
     t0 = time.time()
-    if TRIAGE['violations'] >= 3 and TRIAGE['spent_undischarged_s'] > 240:
+    if _triage():
         # the property is already reported violated several times and minutes have gone into queries that did not discharge:
         # the remaining queries get a short budget (an undischarged obligation stays undischarged; nothing is discharged by this)
         timeout = min(timeout, 5000)
@@ -1163,7 +1261,7 @@ def prove(goal, hyps=(), timeout=60000, rounds=2, use_axioms=True, cvc5=True, ex
             A += axioms(list(H) + [goal], rounds=rounds)
         A.append(z3.Not(goal))
         s.add(*A)
-        r = zcheck(s, timeout if final else min(timeout, 4000, 1500 if (TRIAGE['violations'] >= 3 and TRIAGE['spent_undischarged_s'] > 240) else 4000), want_model=final)
+        r = zcheck(s, timeout if final else min(timeout, 4000, 1500 if (_triage()) else 4000), want_model=final)
         last = (r, s, A, LAST_MODEL[0])
         QLOG.append(dict(stage=stage, result=str(r), ms=round(1000 * (time.time() - t0))))
         if r == z3.unsat:
@@ -1210,7 +1308,7 @@ def prove_eq(code, spec, hyps=(), timeout=60000, abstract=True, tol=None):
     ABS_MAX[0] = max(ABS_MAX[0], A.qtime)
     if differ:
         res['fingerprints_differ'] = True
-    if res['result'] != 'discharged' and not differ and not (TRIAGE['violations'] >= 3 and TRIAGE['spent_undischarged_s'] > 240):
+    if res['result'] != 'discharged' and not differ and not (_triage()):
         # retry with raw (non-abstracted) axiom instances
         res2 = prove((code == spec) if tol is None else z3.And(code - spec <= tol, spec - code <= tol), hyps, min(timeout, 20000))
         if res2['result'] == 'discharged':
@@ -1319,6 +1417,10 @@ def evaluate(t, env, dps=50, exact_round=False, tol=None):
             elif kd == z3.Z3_OP_UNINTERPRETED:
                 nm = d.name()
                 if nm in MPFN:
+                    # a sample far outside the working range of the function (sin of 1e400, exp of 1e9) is rejected: mpmath would otherwise
+                    # spend minutes reducing the argument (observed: pi to ~1e9 bits inside mod_pi2)
+                    if any(not isinstance(v_, bool) and abs(v_) > (mp.mpf(10) ** 4 if nm in ('sinh', 'cosh', 'exp') else mp.mpf(10) ** 25) for v_ in a):
+                        raise OverflowError(nm)
                     r = MPFN[nm](*a)
                 elif nm.startswith('round') and nm[5:].isdigit():
                     n = int(nm[5:])
